@@ -300,8 +300,23 @@ func checkC17(run *h.Run) {
 						rc := routingCase{Sweep: sp.Name, Router: router.String(), Table: t, Req: w.reqs[base], Reuse: reuse}
 						base := base
 						class := "allow-mismatch/" + router.String()
-						run.Violate(class, res.finding, fmt.Sprintf("[%s] %v : %s", router, t, res.why), rc, func() bool {
+						run.ViolateH(class, res.finding, fmt.Sprintf("[%s] %v : %s", router, t, res.why), rc, func() bool {
 							pl, fl, hd := c17Probe(t, router, w.reqs[base], c17Methods, reuse)
+							return len(judgeURL(p, path, router, c17Methods, pl, fl, hd)) > 0
+						}, func() bool {
+							// with the URLs the two containers were probed for before this one
+							hp := rs.Build(t, rs.BuildOpt{Router: router, Reuse: reuse})
+							hf := rs.Build(t, rs.BuildOpt{Router: router, Options: true, Reuse: reuse})
+							pl, fl := make([]rs.Outcome, nm), make([]rs.Outcome, nm)
+							hd := make([]map[string][]string, nm)
+							for k := 0; k < base+nm; k++ {
+								rec := h.NewRec()
+								o1 := hp.Do(w.reqs[k].HTTP(), h.NewRec(), false)
+								o2 := hf.Do(w.reqs[k].HTTP(), rec, false)
+								if k >= base {
+									pl[k-base], fl[k-base], hd[k-base] = o1, o2, rec.Result().Clone()
+								}
+							}
 							return len(judgeURL(p, path, router, c17Methods, pl, fl, hd)) > 0
 						})
 					}
